@@ -55,7 +55,7 @@ func (m *Meta) Marshal() []byte {
 			offset += copy(b[offset:], sf.val)
 		}
 	}
-	if m.LmdbTxnID > 0 {
+	if m.LmdbTxnID != 0 {
 		offset += csproto.EncodeTag(b[offset:], FieldMetaLMDBTxnID, csproto.WireTypeVarint)
 		offset += csproto.EncodeVarint(b[offset:], uint64(m.LmdbTxnID))
 	}
@@ -64,7 +64,7 @@ func (m *Meta) Marshal() []byte {
 		binary.LittleEndian.PutUint64(b[offset:offset+8], m.TimestampNano)
 		offset += 8
 	}
-	if m.FromLmdbTxnID > 0 {
+	if m.FromLmdbTxnID != 0 {
 		offset += csproto.EncodeTag(b[offset:], FieldMetaFromLMDBTxnID, csproto.WireTypeVarint)
 		offset += csproto.EncodeVarint(b[offset:], uint64(m.FromLmdbTxnID))
 	}
